@@ -143,6 +143,59 @@ WEAK_RE = re.compile(r"\.\s*(rev|find|any|all|map|filter|position|rposition|fold
 GUARD_RE = re.compile(r"[\)\w\]]\s+if\s+[^;{}]*?=>", re.S)
 
 
+_SAFE_METHODS = {"get", "copied", "cloned", "clone", "len", "is_some", "is_none", "is_empty", "contains_key", "contains", "as_ref", "iter",
+                 "unwrap_or", "unwrap_or_default", "unwrap", "first", "last", "to_owned", "as_str", "as_slice", "eq", "starts_with", "ends_with"}
+
+
+def _guarded_match_may_mutate(body, pos):
+    """The match-guard artefact (see weak_profile) shows only if an arm of the guarded `match` writes through a `&mut` (probed:
+       guards over locals or over the `&mut` parameter itself are harmless when every arm is pure). Conservative test: the text
+       of the enclosing match block is 'pure' only if it has no assignment (outside `let` bindings), no `&mut`, no macro and no
+       call other than enum constructors and a short list of `&self` methods. Anything else, or a block that cannot be found -> True."""
+    depth, k = 0, pos
+    while k > 0:
+        k -= 1
+        c = body[k]
+        if c == "}":
+            depth += 1
+        elif c == "{":
+            if depth == 0:
+                break
+            depth -= 1
+    else:
+        return True
+    head = body[max(0, k - 400):k]
+    head = re.split(r"[;{}]", head)[-1]
+    if not re.search(r"\bmatch\b", head):
+        return True
+    depth, e = 0, k
+    while e < len(body):
+        if body[e] == "{":
+            depth += 1
+        elif body[e] == "}":
+            depth -= 1
+            if depth == 0:
+                break
+        e += 1
+    else:
+        return True
+    blk = body[k:e + 1]
+    blk = re.sub(r'"(?:[^"\\]|\\.)*"', '""', blk)
+    blk = re.sub(r"\blet\b[^=;]*=(?!=)", " ", blk)
+    if "&mut" in blk or re.search(r"\w\s*!\s*[\(\[{]", blk):
+        return True
+    if re.search(r"(?<![=!<>+\-*/%&|^])=(?![=>])", blk) or re.search(r"(\+|-|\*|/|%|&|\||\^|<<|>>)=", blk):
+        return True
+    for m_ in re.finditer(r"(\.?)\s*\b([A-Za-z_]\w*)\s*(?:::\s*<[^>]*>\s*)?\(", blk):
+        dot, name = m_.group(1), m_.group(2)
+        if name in ("if", "match", "while", "for", "return", "Some", "Ok", "Err") or name[0].isupper():
+            continue
+        if dot and name in _SAFE_METHODS:
+            continue
+        return True
+    return False
+
+
 def weak_profile(b):
     """per extracted function: how many calls of each under-specified std method its repo-origin lines contain"""
     lines = b.text.split("\n")
@@ -163,7 +216,7 @@ def weak_profile(b):
         # in a function that has gained such a guard says nothing about the code
         body_ = "\n".join(lines[gl - 1].split("//")[0] for gl in range(a, min(e, len(lines)) + 1)
                           if (b.linemap[gl - 1] if gl - 1 < len(b.linemap) else ("gen", None, 0))[0] == "repo")
-        ng_ = len(GUARD_RE.findall(body_))
+        ng_ = sum(1 for m_ in GUARD_RE.finditer(body_) if _guarded_match_may_mutate(body_, m_.start()))
         if ng_:
             cnt["match_guard"] = cnt.get("match_guard", 0) + ng_
         old = prof.setdefault(name, {})
